@@ -48,7 +48,7 @@ from psyclone.psyir.frontend.fparser2 import (
     Fparser2Reader, TYPE_MAP_FROM_FORTRAN)
 from psyclone.psyir.nodes import (
     BinaryOperation, Call, Container, CodeBlock, DataNode, IntrinsicCall,
-    Literal, Operation, Range, Routine, Schedule, UnaryOperation)
+    Literal, Operation, Range, Reference, Routine, Schedule, UnaryOperation)
 from psyclone.psyir.symbols import (
     ArgumentInterface, ArrayType, ContainerSymbol, DataSymbol, DataTypeSymbol,
     GenericInterfaceSymbol, IntrinsicSymbol, PreprocessorInterface,
@@ -832,6 +832,61 @@ class FortranWriter(LanguageWriter):
         return ""
 
     # pylint: disable=too-many-branches
+    @staticmethod
+    def _symbols_in_shape(datatype):
+        '''
+        :param datatype: the datatype to examine.
+        :type datatype: :py:class:`psyclone.psyir.symbols.DataType`
+
+        :returns: the symbols referenced in the array bounds of the \
+                  supplied datatype (if any).
+        :rtype: list[:py:class:`psyclone.psyir.symbols.Symbol`]
+
+        '''
+        symbols = []
+        if isinstance(datatype, ArrayType):
+            for dim in datatype.shape:
+                if isinstance(dim, ArrayType.ArrayBounds):
+                    for bound in (dim.lower, dim.upper):
+                        if isinstance(bound, DataNode):
+                            symbols.extend(ref.symbol for ref in
+                                           bound.walk(Reference))
+        return symbols
+
+    @staticmethod
+    def _order_by_dependencies(symbols, get_inputs):
+        '''Re-order the supplied symbols so that each one comes after any of
+        the others that its declaration depends upon. The original order is
+        preserved wherever it is valid.
+
+        :param symbols: the symbols to order.
+        :type symbols: list[:py:class:`psyclone.psyir.symbols.Symbol`]
+        :param get_inputs: function returning the symbols that the \
+                           declaration of a given symbol depends upon.
+        :type get_inputs: Callable[[Symbol], list[Symbol]]
+
+        :returns: the symbols in a valid declaration order.
+        :rtype: list[:py:class:`psyclone.psyir.symbols.Symbol`]
+
+        '''
+        remaining = list(symbols)
+        ordered = []
+        while remaining:
+            for sym in remaining:
+                # Symbols are compared by name because a datatype may
+                # refer to the Symbol of the same name in another table.
+                inputs = [inp.name.lower() for inp in get_inputs(sym)]
+                if not any(other is not sym and other.name.lower() in inputs
+                           for other in remaining):
+                    ordered.append(sym)
+                    remaining.remove(sym)
+                    break
+            else:
+                # Circular dependence: nothing sensible can be done.
+                ordered.extend(remaining)
+                break
+        return ordered
+
     def _gen_parameter_decls(self, symbol_table, is_module_scope=False):
         ''' Create the declarations of all parameters present in the supplied
         symbol table. Declarations are ordered so as to satisfy any inter-
@@ -879,6 +934,10 @@ class FortranWriter(LanguageWriter):
             if isinstance(symbol.datatype.precision, DataSymbol):
                 read_write_info.add_read(
                     Signature(symbol.datatype.precision.name))
+            # Any Symbol used to define the shape of the constant is also an
+            # 'input'.
+            for shape_sym in self._symbols_in_shape(symbol.datatype):
+                read_write_info.add_read(Signature(shape_sym.name))
             # Remove any 'inputs' that are not local since these do not affect
             # the ordering of local declarations.
             for sig in read_write_info.signatures_read:
@@ -1020,19 +1079,35 @@ class FortranWriter(LanguageWriter):
                 f"'{[sym.name for sym in symbol_table.argument_datasymbols]}'."
                 )
         # We use symbol_table.argument_datasymbols because it has the
-        # symbol order that we need
-        for symbol in symbol_table.argument_datasymbols:
+        # symbol order that we need. An argument whose shape depends upon
+        # another argument must be declared after it.
+        for symbol in self._order_by_dependencies(
+                symbol_table.argument_datasymbols,
+                lambda sym: self._symbols_in_shape(sym.datatype)):
             declarations += self.gen_vardecl(
                 symbol, include_visibility=is_module_scope)
             all_symbols.remove(symbol)
 
         # 4: Derived-type declarations. These must come before any declarations
-        # of symbols of these types.
-        for symbol in all_symbols[:]:
-            if isinstance(symbol, DataTypeSymbol):
-                declarations += self.gen_typedecl(
-                    symbol, include_visibility=is_module_scope)
-                all_symbols.remove(symbol)
+        # of symbols of these types and after the declaration of any other
+        # derived type that they have a component of.
+        def component_types(tsymbol):
+            types = []
+            if isinstance(tsymbol.datatype, StructureType):
+                for component in tsymbol.datatype.components.values():
+                    ctype = component.datatype
+                    if isinstance(ctype, ArrayType):
+                        ctype = ctype.intrinsic
+                    if isinstance(ctype, DataTypeSymbol):
+                        types.append(ctype)
+            return types
+
+        for symbol in self._order_by_dependencies(
+                [sym for sym in all_symbols
+                 if isinstance(sym, DataTypeSymbol)], component_types):
+            declarations += self.gen_typedecl(
+                symbol, include_visibility=is_module_scope)
+            all_symbols.remove(symbol)
 
         # 5: The rest of the symbols
         for symbol in all_symbols:
